@@ -76,3 +76,24 @@ func VerifC16_Handlers() {
 	vpAssert(len(conn.items) > 0, "handler-always-replies")
 	vpReach("end")
 }
+
+// VerifC16_ScanHandler: the DM.SCAN handler with well-formed positional arguments (partition 0, DMap "d", cursor 0)
+// and 1..maxopts option arguments of arbitrary lazily decided bytes (COUNT <anything>, MATCH <anything>, REPLICA,
+// unknown words, missing values): no panic, no spinning, always a reply.
+func VerifC16_ScanHandler() {
+	maxOpts := vpBound("maxopts")
+	maxLen := vpBound("maxlen")
+	cl := vpNewCluster(vpClusterConfig{members: 1, replicaCount: 1, writeQuorum: 1, readQuorum: 1, partitions: 1})
+	cl.vpSetOwners(0, []int{0}, nil)
+	s := cl.members[0].svc
+	vpAssume(vpDMap(cl.members[0], "d").Put(context.Background(), "k", []byte("7"), nil) == nil)
+	n := 1 + vpChoose("nopts", maxOpts)
+	args := [][]byte{[]byte("scan"), []byte("0"), []byte("d"), []byte("0")}
+	for i := 0; i < n; i++ {
+		args = append(args, vpLazyBytes(vpHArgNames[i], maxLen))
+	}
+	conn := &vpRConn{}
+	s.scanCommandHandler(conn, redcon.Command{Args: args})
+	vpAssert(len(conn.items) > 0, "handler-always-replies")
+	vpReach("end")
+}
